@@ -105,6 +105,7 @@ class Normalizer:
         self.var_width = var_width      # fn(var expr) -> (name, width) or None
         self.tables = tables            # path -> (rows or None, width)
         self.index_inputs = index_inputs or (lambda e: None)
+        self.inline = None              # fn(call expr) -> equivalent expression over the arguments, or None (expr.inline_helper)
         self.helpers = {}               # callee path -> ((argument widths), fn(*bit vectors) -> bit vector): helpers whose own form is checked
         self.fail = None
 
@@ -219,6 +220,10 @@ class Normalizer:
                         return None
                     args.append(x)
                 return fn(*args)
+            if self.inline is not None:
+                e2 = self.inline(e)
+                if e2 is not None:
+                    return self.nf(e2, want)
             self.fail = "call of %s outside the fragment" % e[1]
             return None
         self.fail = "expression kind %s outside the fragment" % k
